@@ -56,8 +56,21 @@ void eval(Ctx& c) {
   J u[3] = {prim(c, "u"), prim(c, "v"), prim(c, "w")};
   const EQ &gamma = c.p("gamma"), &R = c.p("R"), &beta = c.p("beta"), &mu_r = c.p("mu_r"), &T_r = c.p("T_r");
   const EQ &kappa_r = c.p("kappa_r"), &lambda_r = c.p("lambda_r");
-  if (!(rho.v.v > 0) || !(Tm.v.v > 0)) { c.near_branch = true; return; }   // outside the admissible set (rho>0, T>0)
   J p = rho * R * Tm;
+  auto fields_and_gradients = [&] {
+    c.set("exact_rho/S4", rho.v); c.set("exact_t/S4", Tm.v); c.set("exact_p/S4", p.v);
+    c.set("exact_u/S4", u[0].v); c.set("exact_v/S4", u[1].v); c.set("exact_w/S4", u[2].v);
+    const char* nm[6] = {"rho", "t", "p", "u", "v", "w"};
+    const J* fl[6] = {&rho, &Tm, &p, &u[0], &u[1], &u[2]};
+    for (int k = 0; k < 6; k++)
+      for (int i = 0; i < 3; i++) c.set(std::string("grad_") + nm[k] + "/I4#" + std::to_string(i + 1), d(*fl[k], i));
+  };
+  if (!(rho.v.v > 0) || !(Tm.v.v > 0)) {
+    // outside the admissible set of the sources (rho > 0, T > 0); the fields and their gradients are polynomial in the primitives and
+    // are defined everywhere (C07 quantifies over all parameters): a gradients-only run still gets its references
+    if (c.fields_only) { fields_and_gradients(); return; }
+    c.near_branch = true; return;
+  }
   J e = (R / (gamma - 1.0)) * Tm + 0.5 * (u[0] * u[0] + u[1] * u[1] + u[2] * u[2]);
   J Tj1 = Tm; Tj1.ord = 1;   // viscosity needs first derivatives only
   J mu = mu_r * pow(Tj1 / T_r, beta);
@@ -85,12 +98,7 @@ void eval(Ctx& c) {
   c.set("source_rho/S4", Qrho);
   c.set("source_rho_u/S4", Qm[0]); c.set("source_rho_v/S4", Qm[1]); c.set("source_rho_w/S4", Qm[2]);
   c.set("source_rho_e/S4", Qe);
-  c.set("exact_rho/S4", rho.v); c.set("exact_t/S4", Tm.v); c.set("exact_p/S4", p.v);
-  c.set("exact_u/S4", u[0].v); c.set("exact_v/S4", u[1].v); c.set("exact_w/S4", u[2].v);
-  const char* nm[6] = {"rho", "t", "p", "u", "v", "w"};
-  const J* fl[6] = {&rho, &Tm, &p, &u[0], &u[1], &u[2]};
-  for (int k = 0; k < 6; k++)
-    for (int i = 0; i < 3; i++) c.set(std::string("grad_") + nm[k] + "/I4#" + std::to_string(i + 1), d(*fl[k], i));
+  fields_and_gradients();
 }
 }  // namespace
 void reg_powerlaw() {
